@@ -320,6 +320,9 @@ func (w *World) verifyUnit(fn *ssa.Function, defaultSafety []string) *UnitResult
 			}
 		}
 	}
+	if containsStr(defaultSafety, "C13") {
+		fr.determinismObs() // frame obligations need no contract: they are generated for whatever is checked under C13
+	}
 	if con != nil && (len(con.Touches) > 0 || len(con.WritesTo) > 0) && rpc != "false" {
 		// frame: of the struct types of the touched objects, only those objects changed (among pre-existing ones)
 		fr.frameObs("frame", rpc, fr.entry, rh, fn.Pos())
@@ -355,4 +358,13 @@ func modelVarsOf(name string, v Val) []modelVar {
 		}
 	}
 	return nil
+}
+
+func containsStr(xs []string, x string) bool {
+	for _, y := range xs {
+		if y == x {
+			return true
+		}
+	}
+	return false
 }
